@@ -18,6 +18,11 @@
 //!   xchg J                           one message over raw connection J (direction by socket type) -> x#J=ok|fail:<why>
 //!   bigxchg J SIZE                   raw peer J sends one message with a SIZE-byte frame, recv awaited in the root future -> X#J=ok|fail:<why>
 //!   flood N SIZE                     the socket sends N messages of SIZE octets while no raw peer reads -> fl=ok|fl=fail:<why>
+//!   halfclose J                      raw peer J shuts down its sending direction and keeps its socket open -> hc#J=done
+//!   fdsnow                           -> fdn=<open descriptors over baseline, right now, after a short pause>
+//!   fdsqueeze K                      the process runs out of descriptors while a client connects to bind #K (accept fails), then they are freed -> sq=done|sq=skipped
+//!   subbig N SIZE                    (SUB) subscribe to N topics of SIZE octets each -> sb=ok|sb=fail:<why>
+//!   drain J                          raw peer J reads and discards whatever arrives until nothing has come for 300 ms -> d#J=<octets>
 //!   park                             start a recv() that parks, in a background task (fair-queue sockets)
 //!   probe K                          plain connect to bind #K -> p#K=accepted|refused
 //!   binds                            -> binds=#a,#b (sorted)
@@ -54,6 +59,12 @@ impl RawStream {
         match self {
             RawStream::Tcp(s) => s.read(b).await,
             RawStream::Unix(s) => s.read(b).await,
+        }
+    }
+    async fn shutdown_write(&mut self) -> std::io::Result<()> {
+        match self {
+            RawStream::Tcp(s) => s.shutdown().await,
+            RawStream::Unix(s) => s.shutdown().await,
         }
     }
 }
@@ -556,6 +567,79 @@ async fn scenario(head: Vec<String>, ops: Vec<Vec<String>>) -> Vec<String> {
                     n = alive_tasks();
                 }
                 out.push(format!("tasks={}", n.saturating_sub(base_tasks)));
+            }
+            "fdsqueeze" => {
+                // exhaust the descriptor table, leave room for exactly one (the client's end), connect, give the accept loop
+                // time to fail, then free everything again
+                let ep = bound[t[1].parse::<usize>().unwrap()].clone();
+                let mut hold: Vec<std::fs::File> = Vec::new();
+                while let Ok(f) = std::fs::File::open("/dev/null") {
+                    hold.push(f);
+                    if hold.len() > 100_000 {
+                        break;
+                    }
+                }
+                if hold.len() > 100_000 || hold.is_empty() {
+                    drop(hold);
+                    out.push("sq=skipped".to_string());
+                } else {
+                    hold.pop();
+                    let c = tokio::time::timeout(Duration::from_secs(1), raw_connect(&ep)).await;
+                    tokio::time::sleep(Duration::from_millis(300)).await;
+                    drop(c);
+                    drop(hold);
+                    tokio::time::sleep(Duration::from_millis(200)).await;
+                    out.push("sq=done".to_string());
+                }
+            }
+            "subbig" => {
+                let n: usize = t[1].parse().unwrap();
+                let size: usize = t[2].parse().unwrap();
+                let mut res = "ok".to_string();
+                if let Some(AnySock::Sub(sk)) = sock.as_mut() {
+                    for i in 0..n {
+                        let topic = format!("T{:04}{}", i, "x".repeat(size));
+                        match tokio::time::timeout(Duration::from_secs(5), sk.subscribe(&topic)).await {
+                            Ok(Ok(())) => {}
+                            Ok(Err(e)) => {
+                                res = format!("fail:{}", zeromq::__verif::error_class(&e));
+                                break;
+                            }
+                            Err(_) => {
+                                res = "fail:timeout".to_string();
+                                break;
+                            }
+                        }
+                    }
+                } else {
+                    res = "fail:not-sub".to_string();
+                }
+                out.push(format!("sb={}", res));
+            }
+            "drain" => {
+                let j: usize = t[1].parse().unwrap();
+                let mut total = 0usize;
+                if let Some(r) = raws[j].as_mut() {
+                    let mut buf = vec![0u8; 1 << 16];
+                    loop {
+                        match tokio::time::timeout(Duration::from_millis(300), r.s.read(&mut buf)).await {
+                            Ok(Ok(k)) if k > 0 => total += k,
+                            _ => break,
+                        }
+                    }
+                }
+                out.push(format!("d#{}={}", j, total));
+            }
+            "halfclose" => {
+                let j: usize = t[1].parse().unwrap();
+                if let Some(r) = raws[j].as_mut() {
+                    let _ = r.s.shutdown_write().await;
+                }
+                out.push(format!("hc#{}=done", j));
+            }
+            "fdsnow" => {
+                tokio::time::sleep(Duration::from_millis(400)).await;
+                out.push(format!("fdn={}", open_fds().saturating_sub(base_fds)));
             }
             "fds" => {
                 let mut n = open_fds();
